@@ -16,7 +16,7 @@ static int h_poll(struct pollfd *p, nfds_t n, int t);
 #define read(a,b,c) h_read(a,b,c)
 #define write(a,b,c) h_write(a,b,c)
 #define poll(a,b,c) h_poll(a,b,c)
-#include "../../repo/lib/netio.c"
+#include "lib/netio.c"
 #undef read
 #undef write
 #undef poll
